@@ -431,3 +431,61 @@ def two_level_context_grammar(only_var_atoms: bool = False):
         abstract(c)
     nodes = [TAtom, TBinder, TVar, TLet, TProgram] + ([] if only_var_atoms else [TLit])
     return extract_grammar(nodes, TProgram)
+
+
+# ----------------------------------------------------------------------------------------
+# programs that hold CLASSES of the grammar as plain values (an `is-a` test names one of the productions): a class object in
+# a field is a leaf like any other plain value
+# ----------------------------------------------------------------------------------------
+def kinds_grammar(abc_based: bool = False):
+    """fresh classes for every grammar"""
+    from typing import Any
+    from geneticengine.grammar.decorators import abstract
+
+    if abc_based:
+        class QExpr(ABC):
+            pass
+    else:
+        @abstract
+        class QExpr:
+            pass
+
+    @dataclass
+    class QLit(QExpr):
+        v: Annotated[int, IntRange(0, 9)]
+
+    @dataclass
+    class QVar(QExpr):
+        name: Annotated[str, VarRange(["x", "y"])]
+
+    @dataclass
+    class QPlus(QExpr):
+        l: QExpr
+        r: QExpr
+
+    kinds = [QLit, QVar, QPlus]
+
+    @dataclass
+    class QIsA(QExpr):
+        what: QExpr
+        kind: Annotated[Any, VarRange(kinds)]
+
+    return extract_grammar([QLit, QVar, QPlus, QIsA], QExpr), (QExpr, QLit, QVar, QPlus, QIsA)
+
+
+def kinds_measure(node, classes, out):
+    """(nodes, depth, weighted) of every production instance by a walk over the constructor parameters (tree-depth mode); plain
+    values -- class objects included -- count nothing"""
+    QExpr, QLit, QVar, QPlus, QIsA = classes
+    if isinstance(node, type) or not isinstance(node, QExpr):
+        return 0, 0, 0
+    kids = {QLit: [], QVar: [], QPlus: ["l", "r"], QIsA: ["what"]}[type(node)]
+    nodes, depth, weighted = 1, 1, 0
+    for f in kids:
+        n, d, w = kinds_measure(getattr(node, f), classes, out)
+        nodes += n
+        depth = max(depth, d + 1)
+        weighted += w
+    weighted += depth
+    out.append((node, (nodes, depth, weighted)))
+    return nodes, depth, weighted
